@@ -366,6 +366,28 @@ func init() {
 				}
 			}
 			c.Check(okV, "wfq-virtual-time-monotone", c.P.Pos(pop.Pos()), "virtualTime = max(virtualTime, finish of the served chunk)", "virtual time can move backwards")
+			// every writer of the virtual clock keeps it monotone w.r.t. the stored finish tags:
+			// max(virtualTime, …), or a reset to 0 together with fresh tag maps
+			ksV := keyer{}
+			for _, fn := range c.P.Funcs {
+				for _, a := range c.storesIn(fn, vt) {
+					okM := false
+					if call, ok := isMathCall(a.Val, "Max"); ok && (IsLoadOf(vt)(call.Call.Args[0]) || IsLoadOf(vt)(call.Call.Args[1])) {
+						okM = true
+					}
+					if k, ok := a.Val.(*ssa.Const); ok && k.Value != nil && k.Value.String() == "0" {
+						fresh := false
+						for _, b := range c.storesIn(fn, sf) {
+							if _, isMk := b.Val.(*ssa.MakeMap); isMk && b.Instr.Block() == a.Instr.Block() {
+								fresh = true
+							}
+						}
+						okM = fresh
+					}
+					c.Check(okM, ksV.key("wfq-clock-writer@"+c.P.FuncName(fn)), c.Pos(a.Instr), "virtual time only moves forward, or is reset together with the per-stream finish tags",
+						"the virtual clock is set back while per-stream finish tags are kept: a stream that was active before starts behind a fresh one by its whole earlier service and is starved")
+				}
+			}
 			peek := c.Fn("weightedFairQueueingPendingQueuePolicy.Peek")
 			okMin := false
 			forEachInstr(peek, func(in ssa.Instruction) {
